@@ -540,8 +540,33 @@ def run(ctx: Any, prog: Program) -> None:
         else:
             ctx.check('C16.Q1', roles == ('pos', 'len'), db, sd[0], f'block position: the writer stores ({U(sd[0].args[1])}, {U(sd[0].args[2])}) = {roles}; the reader seeks to the first field and reads as many bytes as the second',
                       func='serialise', text='block position linkage')
-    ok = 'STRING_SEP.join((ent.classname for ent in block_ents))' in wsrc and '.split(STRING_SEP)' in usrc
-    ctx.shape('C16.Q1', ok, db, sfn, 'class names joined / split with STRING_SEP', func='serialise', text='class name list coding')
+    # the block table lists the class names of a block, the block itself holds the bodies; the reader pairs the i-th name with the i-th body.
+    # Both are therefore produced from the same list in the same order: the listing is `SEP.join(<e>.classname for <e> in X)` over exactly the
+    # sequence X that the body loop `for <e> in X: ent_serialise(<e>, ...)` walks (an ordering applied to one of them only shifts definitions
+    # onto other entities' names).
+    joins = [c for c in ast.walk(sfn) if isinstance(c, ast.Call) and isinstance(c.func, ast.Attribute) and c.func.attr == 'join' and dotted(c.func.value) == 'STRING_SEP' and len(c.args) == 1]
+    body_loops = [l_ for l_ in ast.walk(sfn) if isinstance(l_, ast.For) and any(isinstance(c, ast.Call) and dotted(c.func) == 'ent_serialise' and c.args and dotted(c.args[0]) == dotted(l_.target) for b in l_.body for c in ast.walk(b))]
+    if len(joins) != 1 or len(body_loops) != 1 or '.split(STRING_SEP)' not in usrc:
+        ctx.shape('C16.Q1', False, db, sfn, f'class name listing ({len(joins)} STRING_SEP.join) / body loop ({len(body_loops)}) / split not found once', func='serialise', text='class name list coding')
+    else:
+        arg = joins[0].args[0]
+        plain = isinstance(arg, ast.GeneratorExp) and len(arg.generators) == 1 and not arg.generators[0].ifs and isinstance(arg.elt, ast.Attribute) and arg.elt.attr == 'classname' \
+            and dotted(arg.elt.value) == dotted(arg.generators[0].target)
+        seq_l = U(arg.generators[0].iter) if plain else None
+        seq_b = U(body_loops[0].iter)
+        if plain:
+            ctx.check('C16.Q1', seq_l == seq_b, db, joins[0], f'the class names of a block are listed in the order of `{seq_l}` but its bodies are written in the order of `{seq_b}`', func='serialise', text='class name list coding')
+        else:
+            inner = [g for g in ast.walk(arg) if isinstance(g, ast.GeneratorExp)]
+            reordered = isinstance(arg, ast.Call) and dotted(arg.func) in ('sorted', 'reversed') and inner
+            if reordered:
+                ctx.check('C16.Q1', False, db, joins[0], f'the class names of a block are listed in the order of `{U(arg)[:70]}` but its bodies are written in the order of `{seq_b}`: the reader gives the i-th listed name '
+                          'the i-th body, so wherever the two orders differ (names that differ in letter case) entities receive each other\'s definitions', func='serialise', text='class name list coding')
+            else:
+                ctx.shape('C16.Q1', False, db, joins[0], f'class name listing `{U(arg)[:60]}` not recognised', func='serialise', text='class name list coding')
+        # nothing re-orders the block between the two loops (the only sort is in front of the listing)
+        sorts = [c for c in ast.walk(sfn) if isinstance(c, ast.Call) and isinstance(c.func, ast.Attribute) and c.func.attr in ('sort', 'reverse') and U(c.func.value) == seq_b]
+        ctx.check('C16.Q1', all(c.lineno < joins[0].lineno for c in sorts), db, sorts[-1] if sorts else sfn, f'`{seq_b}` is re-ordered after its class names were listed', func='serialise', text='block order fixed before the listing')
     ok = _at(wsrc, 'base_dict.serialise(file)') < _at(wsrc, 'ent_serialise(CBaseEntity, file, base_dict)') and _at(usrc, 'BinStrDict.unserialise(file, [])') < _at(usrc, "ent_unserialise(file, '_CBaseEntity_', from_dict)")
     ctx.shape('C16.Q1', ok, db, sfn, 'shared dictionary then CBaseEntity', func='serialise', text='base block order')
     # ---- Q2 --------------------------------------------------------------------------------------------------
@@ -665,6 +690,19 @@ def run(ctx: Any, prog: Program) -> None:
     else:
         ctx.check('C16.Q3', (w_ro < w_rp) == (p_ro < p_rp), fgd, fgd.func('KVDef.export'), 'the writer emits `readonly` and `report` in the opposite order to the one the parser looks for them in (the parser reads them in a fixed order)',
                   func='KVDef.export', text='keyword order readonly/report')
+    # each of the two keywords is the text form of one boolean of the definition and the parser recognises it whatever options the file was
+    # written with: its write is decided by that field alone (an export option in the guard - `custom_syntax`, a tag filter - drops the flag
+    # from some outputs that the parser would have read it from)
+    kve = fgd.func('KVDef.export')
+    for kw, field in (('readonly ', 'readonly'), ('report ', 'reportable')):
+        wcalls = [c for c in ast.walk(kve) if isinstance(c, ast.Call) and isinstance(c.func, ast.Attribute) and c.func.attr == 'write' and c.args and isinstance(c.args[0], ast.Constant) and c.args[0].value == kw]
+        if len(wcalls) != 1:
+            continue          # the shape clause above has already declined
+        gtests = [a.test for a in _anc16(fgd, wcalls[0], kve) if isinstance(a, ast.If)]
+        names = {x.id for g in gtests for x in ast.walk(g) if isinstance(x, ast.Name) and x.id != 'self'}
+        attrs = {x.attr for g in gtests for x in ast.walk(g) if isinstance(x, ast.Attribute) and dotted(x.value) == 'self'}
+        ctx.check('C16.Q3', attrs == {field} and not names, fgd, wcalls[0], f'KVDef.export writes `{kw.strip()}` under `{" and ".join(U(g) for g in gtests)[:80]}`: besides self.{field} that depends on {sorted(names | (attrs - {field}))}, '
+                  f'so some exports of a keyvalue with {field}=True lack the keyword although KVDef._parse reads it in every mode - the definition read back differs', func='KVDef.export', text=f'keyword {kw.strip()} written iff {field}')
     eps = U(ep)
     ees = U(ee)
     for kw, wr in (('input', "inp.export(file, 'input'"), ('output', "out.export(file, 'output'")):
@@ -1015,6 +1053,8 @@ def run(ctx: Any, prog: Program) -> None:
 
 
 MUTANTS: List[Dict[str, Any]] = [
+    {'id': 'classname_listing_sorted_casefolded', 'file': '_engine_db.py', 'find': "        classnames = STRING_SEP.join(ent.classname for ent in block_ents).encode('utf8')", 'replace': "        classnames = STRING_SEP.join(sorted((ent.classname for ent in block_ents), key=str.casefold)).encode('utf8')", 'expect': 'C16.Q1'},
+    {'id': 'report_keyword_only_with_custom_syntax', 'file': 'fgd.py', 'find': "        if self.reportable:\n            file.write('report ')", 'replace': "        if self.reportable and custom_syntax:\n            file.write('report ')", 'expect': 'C16.Q3'},
     {'id': 'spawnflags_type_byte_before_readonly', 'file': '_engine_db.py', 'find': "    # Use the high bit to store this inside here as well.\n    if kvdef.readonly:\n        value_type |= 128\n    file.write(_fmt_8bit.pack(value_type))\n", 'replace': "    if kvdef.type is ValueTypes.SPAWNFLAGS:\n        file.write(_fmt_8bit.pack(value_type))\n    if kvdef.readonly:\n        value_type |= 128\n    if kvdef.type is not ValueTypes.SPAWNFLAGS:\n        file.write(_fmt_8bit.pack(value_type))\n", 'expect': 'C16.Q1'},
     {'id': 'sprite_parse_keeps_quotes', 'file': '_fgd_helpers.py', 'find': "            return cls(args[0].strip('\"'))", 'replace': "            return cls(args[0])", 'expect': 'C16.Q6'},
     {'id': 'model_export_quotes', 'file': '_fgd_helpers.py', 'find': "        if self.model is not None:\n            return [self.model]", 'replace': "        if self.model is not None:\n            return [f'\"{self.model}\"']", 'expect': 'C16.Q6'},
